@@ -10,7 +10,8 @@ PLAN = {
     "C01": {
         "pkg": ["vts", "vh"],
         "level": "model_checking",
-        "parts": [part("mc_proto", "c01", q=4, t=16), part("mc_server", "c01", q=16, t=16, tq=200, tt=2400)],
+        "parts": [part("mc_proto", "c01", q=4, t=16), part("mc_server", "c01", q=16, t=16, tq=200, tt=2400),
+                  part("mc_server", "conf", q=2, t=8, tq=200, tt=1200, args={"quick": ["--prop", "C01"], "thorough": ["--prop", "C01"]})],
         "assumptions": ["in-memory reader/writer never fail", "test service TS is the only registered interface"],
     },
     "C02": {
@@ -57,13 +58,15 @@ PLAN = {
     "C13": {
         "pkg": ["vts", "vh"],
         "level": "model_checking",
-        "parts": [part("mc_server", "c13", q=16, t=16, tq=200, tt=2400)],
+        "parts": [part("mc_server", "c13", q=16, t=16, tq=200, tt=2400),
+                  part("mc_server", "conf", q=1, t=1, tq=200, tt=1200, args={"quick": ["--prop", "C13"], "thorough": ["--prop", "C13"]})],
         "assumptions": ["in-memory streams stand in for sockets (accept hook); writes are not scheduling points (each connection writes only to its own buffer)"],
     },
     "C15": {
         "pkg": ["vts", "vh"],
         "level": "model_checking",
-        "parts": [part("mc_server", "c15", q=16, t=16, tq=200, tt=2400)],
+        "parts": [part("mc_server", "c15", q=16, t=16, tq=200, tt=2400),
+                  part("mc_server", "conf", q=1, t=1, tq=200, tt=1200, tiers=("thorough",), args={"quick": ["--prop", "C15"], "thorough": ["--prop", "C15"]})],
         "assumptions": ["virtual clock: an accept timeout advances time by exactly the requested timeout", "Listener::new binds a real socket path per execution so the unlink clause is observed on the real file system"],
     },
     "C07": {
